@@ -750,7 +750,9 @@ func (b *roBatch) Reset()                { b.n = 0 }
 const neverAcked = 1 << 30
 
 type trace struct {
-	rec       *recDB
+	be        backend
+	nw        int           // physical writes of the run
+	rec       *recDB        // nil for runs on the production LevelDB type
 	roots     []common.Hash // acknowledged root of block i
 	snaps     []*model
 	ack       []int // len(log) when block i was acknowledged
@@ -780,6 +782,97 @@ func installMapOrder(variant int) {
 	})
 }
 
+// backend is the store under the account database of one run: the recording map (all prefix and
+// fault enumeration above the Batch interface) or the production LevelDB type with the error
+// injected inside goleveldb (scaleLDB).
+type backend interface {
+	db() xdb.Database
+	beginBlock(i int)
+	setFailAll(on bool)
+	writes() int    // physical writes performed so far
+	injected() bool // the single injected write error was delivered
+	cold() *coldDB  // a brand-new AccountDatabase over what is on the store now
+	done()
+}
+
+func (d *recDB) db() xdb.Database   { return d }
+func (d *recDB) beginBlock(i int)   { d.block = i }
+func (d *recDB) setFailAll(on bool) { d.failAll = on }
+func (d *recDB) writes() int        { return len(d.log) }
+func (d *recDB) injected() bool     { return d.failed }
+func (d *recDB) cold() *coldDB      { return openCold(d.m) }
+func (d *recDB) done()              {}
+
+// ldbBackend: one production *xdb.LDBDatabase per worker process (db.NewLDBDatabase, the type and
+// the ldbBatch the node's state store uses), emptied before every run.  Write errors originate
+// BELOW middleware/db: the `leveldb` overlay feature makes goleveldb's DB.Put/Delete/Write call
+// leveldb.VerifWriteHook first and return its error without writing.
+type ldbBackend struct{}
+
+var ldbState struct {
+	ldb             *xdb.LDBDatabase
+	armed           bool
+	n, failAt       int
+	failed, failAll bool
+}
+
+func openLDB(failAt int) backend {
+	st := &ldbState
+	if st.ldb == nil {
+		l, err := xdb.NewLDBDatabase("c03state", 8, 8)
+		if err != nil {
+			panic(err)
+		}
+		st.ldb = l
+		leveldb.VerifWriteHook = func(path, kind string, b *leveldb.Batch, key, value []byte) error {
+			if !st.armed {
+				return nil
+			}
+			if st.failAll {
+				return errInjected
+			}
+			n := st.n
+			st.n++
+			if n == st.failAt && !st.failed {
+				st.failed = true
+				return errInjected
+			}
+			return nil
+		}
+	}
+	st.armed = false
+	var keys [][]byte
+	it := st.ldb.NewIterator()
+	for it.Next() {
+		keys = append(keys, cp(it.Key()))
+	}
+	it.Release()
+	for _, k := range keys {
+		st.ldb.Delete(k)
+	}
+	st.n, st.failAt, st.failed, st.failAll, st.armed = 0, failAt, false, false, true
+	return ldbBackend{}
+}
+
+func (ldbBackend) db() xdb.Database   { return ldbState.ldb }
+func (ldbBackend) beginBlock(i int)   {}
+func (ldbBackend) setFailAll(on bool) { ldbState.failAll = on }
+func (ldbBackend) writes() int        { return ldbState.n }
+func (ldbBackend) injected() bool     { return ldbState.failed }
+func (ldbBackend) done()              { ldbState.armed = false }
+func (ldbBackend) cold() *coldDB {
+	return &coldDB{adb: account.NewDatabase(ldbState.ldb), usedCode: true}
+}
+
+const scaleLDB = -1 // "granularity" of the runs on the production LevelDB type
+
+func belowBatch(scale int) string {
+	if scale == scaleLDB {
+		return ":below-batch"
+	}
+	return ""
+}
+
 func runHistory(h History, scale, failAt, mapVar int) (tr *trace) {
 	return runHistoryEx(h, scale, failAt, mapVar, false)
 }
@@ -788,14 +881,22 @@ func runHistory(h History, scale, failAt, mapVar int) (tr *trace) {
 // object (reexec=false: what AddBlockOnChain does with its verifiedBlocks cache) or by executing
 // the block again from the parent root on a new state object (reexec=true: cache miss).
 func runHistoryEx(h History, scale, failAt, mapVar int, reexec bool) (tr *trace) {
-	rec := newRec(scale, failAt)
-	tr = &trace{rec: rec}
+	var be backend
+	if scale == scaleLDB {
+		be = openLDB(failAt)
+		tr = &trace{be: be}
+	} else {
+		rec := newRec(scale, failAt)
+		be = rec
+		tr = &trace{rec: rec, be: be}
+	}
+	defer func() { tr.nw = be.writes(); be.done() }()
 	installMapOrder(mapVar)
 	defer mapiter.Uninstall()
-	live := account.NewDatabase(rec)
+	live := account.NewDatabase(be.db())
 	defer account.VerifC03ReleaseCaches(live)
 	for bi, blk := range h.Blocks {
-		rec.block = bi
+		be.beginBlock(bi)
 		parentRoot := common.Hash{}
 		snap := newModel()
 		if blk.Parent >= 0 {
@@ -853,9 +954,9 @@ func runHistoryEx(h History, scale, failAt, mapVar int, reexec bool) (tr *trace)
 				}
 				unacked = true
 				if blk.Disk == "fail" {
-					rec.failAll = true
+					be.setFailAll(true)
 					err := live.TrieDB().Commit(root, false)
-					rec.failAll = false
+					be.setFailAll(false)
 					unacked = err != nil // nothing had to be written: the commit succeeded after all
 				}
 				return
@@ -890,7 +991,7 @@ func runHistoryEx(h History, scale, failAt, mapVar int, reexec bool) (tr *trace)
 		if unacked {
 			tr.ack = append(tr.ack, neverAcked)
 		} else {
-			tr.ack = append(tr.ack, len(rec.log))
+			tr.ack = append(tr.ack, be.writes())
 		}
 		tr.retried = append(tr.retried, retried)
 	}
@@ -1242,6 +1343,44 @@ func checkPrefixes(h History, scale, mapVar int, s *stats) (vs []viol, tr *trace
 	return vs, tr
 }
 
+// checkLDBPlain runs the history without a single-write fault on the production LevelDB type (a
+// sibling block with Disk="fail" has all writes of its disk commit refused inside goleveldb) and
+// opens every acknowledged root through a brand-new AccountDatabase over the store.
+func checkLDBPlain(h History, mapVar int, s *stats) (vs []viol, tr *trace) {
+	tr = runHistory(h, scaleLDB, -1, mapVar)
+	s.evals++
+	if h.sigSuffix() != "" {
+		s.nontrivial++
+	}
+	cd := tr.be.cold()
+	defer cd.close()
+	seen := map[string]bool{}
+	for bi, root := range tr.roots {
+		if tr.ack[bi] == neverAcked {
+			continue
+		}
+		f := coldCheck(cd, root, tr.snaps[bi])
+		if f == nil {
+			s.out("ldb:acked-root-ok")
+			continue
+		}
+		kind := "acked-root-unresolvable:" + f.kind
+		if strings.HasPrefix(f.kind, "differs:") {
+			kind = "acked-root-" + f.kind
+		}
+		sig := "C03:" + kind + h.sigSuffix() + ":below-batch"
+		if seen[sig] {
+			continue
+		}
+		seen[sig] = true
+		vs = append(vs, viol{sig, "acknowledged-root/leveldb",
+			fmt.Sprintf("history %s on the production LevelDB store type: root %x of block %d was acknowledged (TrieDB().Commit reported success) but a brand-new AccountDatabase over the store finds it %s: %s",
+				h.name(), root[:6], bi, f.kind, f.detail),
+			Case{History: h, Scale: scaleLDB, MapVar: mapVar, Mode: "ldb-plain", Root: bi}})
+	}
+	return vs, tr
+}
+
 // checkFaults: every physical write of the history fails once; the commit is issued again; all
 // roots that were finally acknowledged must be durable on the final image.
 func checkFaults(h History, scale, mapVar, nwrites int, baseErr string, reexec bool, s *stats, expired func() bool) (vs []viol, done bool) {
@@ -1252,7 +1391,7 @@ func checkFaults(h History, scale, mapVar, nwrites int, baseErr string, reexec b
 		}
 		tr := runHistoryEx(h, scale, p, mapVar, reexec)
 		s.evals++
-		if !tr.rec.failed {
+		if !tr.be.injected() {
 			s.out("fault-not-reached")
 			continue
 		}
@@ -1268,7 +1407,7 @@ func checkFaults(h History, scale, mapVar, nwrites int, baseErr string, reexec b
 				s.out("fault:commit-error-only-after-fault")
 			}
 		}
-		cd := openCold(tr.rec.m)
+		cd := tr.be.cold()
 		for bi, root := range tr.roots {
 			if tr.ack[bi] == neverAcked {
 				continue
@@ -1286,14 +1425,14 @@ func checkFaults(h History, scale, mapVar, nwrites int, baseErr string, reexec b
 			if strings.HasPrefix(f.kind, "differs:") {
 				kind = "acked-root-" + f.kind
 			}
-			sig := "C03:after-write-error:" + strings.TrimPrefix(kind, "acked-root-") + h.sigSuffix()
+			sig := "C03:after-write-error:" + strings.TrimPrefix(kind, "acked-root-") + h.sigSuffix() + belowBatch(scale)
 			if seen[sig] {
 				continue
 			}
 			seen[sig] = true
 			vs = append(vs, viol{sig, "write-fault",
-				fmt.Sprintf("history %s scale %d: physical write %d returned an error, the commit was issued again (%s) and reported success, but root %x of block %d is %s on the final disk image: %s",
-					h.name(), scale, p, map[bool]string{false: "same state object", true: "block re-executed"}[reexec], root[:6], bi, f.kind, f.detail),
+				fmt.Sprintf("history %s scale %d: physical write %d%s returned an error, the commit was issued again (%s) and reported success, but root %x of block %d is %s on the final disk image: %s",
+					h.name(), scale, p, map[bool]string{false: "", true: " (inside goleveldb, below middleware/db)"}[scale == scaleLDB], map[bool]string{false: "same state object", true: "block re-executed"}[reexec], root[:6], bi, f.kind, f.detail),
 				Case{History: h, Scale: scale, MapVar: mapVar, Mode: "fault", P: p, Root: bi, Reexec: reexec}})
 		}
 		cd.close()
@@ -1390,8 +1529,8 @@ func run(c *fw.Ctx) {
 	// The live heap of a worker is a few MB while it allocates ~150 MB/s of short-lived nodes: with
 	// the default pacing that is ~60 collections per second (20 % of the CPU).  Collect by limit instead.
 	debug.SetGCPercent(-1)
-	debug.SetMemoryLimit(256 << 20)
-	runtime.GOMAXPROCS(2) // one enumerating goroutine per worker process; 16 idle Ps only slow down every stop-the-world
+	debug.SetMemoryLimit(640 << 20) // incl. the 128 MB write buffer of the one production LevelDB handle
+	runtime.GOMAXPROCS(2)           // one enumerating goroutine per worker process; 16 idle Ps only slow down every stop-the-world
 	ts := templates(c.Thorough())
 	maxBig := 1
 	if c.Thorough() {
@@ -1471,6 +1610,20 @@ func run(c *fw.Ctx) {
 							})
 							c.Violation(v.sig, v.part, v.msg, v.cs)
 						}
+					}
+				}
+				// the same two families on the production LevelDB type, errors injected inside goleveldb
+				if sc == scaleReal && mv == 0 && nbig == 0 && len(h.Blocks) <= 2 && (h.Fin == "" || h.Fin == "ir1") {
+					lv, ltr := checkLDBPlain(h, mv, &s)
+					for _, reexec := range []bool{false, true} {
+						fv, done := checkFaults(h, scaleLDB, mv, ltr.nw, ltr.liveErr, reexec, &s, c.Expired)
+						if !done {
+							capped = true
+						}
+						lv = append(lv, fv...)
+					}
+					for _, v := range lv {
+						c.Violation(v.sig, v.part, v.msg, v.cs)
 					}
 				}
 			}
@@ -1572,10 +1725,14 @@ func replay(c *fw.Ctx, raw json.RawMessage) {
 	boot()
 	var s stats
 	var vs []viol
-	describeLog(runHistory(cs.History, cs.Scale, -1, cs.MapVar))
-	if cs.Mode == "fault" {
+	if cs.Scale != scaleLDB {
+		describeLog(runHistory(cs.History, cs.Scale, -1, cs.MapVar))
+	}
+	if cs.Mode == "ldb-plain" {
+		vs, _ = checkLDBPlain(cs.History, cs.MapVar, &s)
+	} else if cs.Mode == "fault" {
 		tr := runHistory(cs.History, cs.Scale, -1, cs.MapVar)
-		vs, _ = checkFaults(cs.History, cs.Scale, cs.MapVar, len(tr.rec.log), tr.liveErr, cs.Reexec, &s, func() bool { return false })
+		vs, _ = checkFaults(cs.History, cs.Scale, cs.MapVar, tr.nw, tr.liveErr, cs.Reexec, &s, func() bool { return false })
 	} else {
 		vs, _ = checkPrefixes(cs.History, cs.Scale, cs.MapVar, &s)
 	}
@@ -1597,6 +1754,7 @@ func main() {
 			"plus (history, failing write p) re-commit cases; histories = all sequences of 1..3 block templates (quick 18, thorough 29 templates (3 / 4 with relational variable-length storage keys: prefix chains, empty key, nibble neighbours, 1/40-byte keys x 1/40-byte values, SetFT/AddFT names), among them 4 / 8 with in-block Snapshot/RevertToSnapshot activity and 2 / 4 that create storage-only accounts (nonce 0, no code) or merely load them without dirtying; at most 1 / 2 oversized blocks) x fork shapes x finalisation variant applied by every block between its mutations and the commit (nothing | IntermediateRoot(true|false) | Finalise(true|false) | IntermediateRoot after every mutation | Commit twice | Commit(false); all 8 for histories of <= 2 blocks, 3-block histories run in the production order IntermediateRoot(true)+Commit(true)) (2 blocks: second on the first or on the empty state; 3 blocks: a chain, thorough also the last block on the first = sibling fork committed after its competitor, unless an oversized block is involved); " +
 			"non-trivial = prefix strictly inside one commit (not at a block boundary, not 0) or a write fault that was actually injected",
 		Assumptions: []string{
+			"the write-fault family and the failed-disk-commit sibling mode also run on the production store type (db.NewLDBDatabase / ldbBatch, one handle per worker, emptied between runs) with the error returned inside goleveldb's DB.Write/Put/Delete (leveldb overlay hook), for all histories of <= 2 blocks without oversized blocks; acknowledged roots are then opened through a brand-new AccountDatabase/NodeDatabase over the same LevelDB handle",
 			"one Batch.Write / Put / Delete is atomic and ordered (LevelDB journal semantics); torn writes inside one batch and fsync loss on power failure are outside the bound",
 			"granularities: real value sizes (flush rule ValueSize() >= IdealBatchSize as shipped), and harness batches that over-report ValueSize (x50, x2^20) so that the repository's own flush rule places a batch boundary every 2 KB / after every node; every such boundary is reachable with real (larger) values",
 			"map iteration order inside the commit path is fixed by the harness (quick 2 variants: first / last start position; thorough also the two alternating patterns) so that the write log is a function of the case",
